@@ -129,6 +129,19 @@ CLAIMED = {
         'technique': 'Lean 4 proof (list sums, induction) + differential correspondence of the NumPy indexing model',
         'design_ref': '§5 C12',
     },
+    'C14': {
+        'text': ('Lean theorems about the subscript rewriting the driver executes (generic in the alphabet): a successful '
+                 'rewriting has a single contracted and a single free block letter and swaps every occurrence of the two; with '
+                 'Phi d B x y L R O = Σ_σ B[σL]·x[σR]·y[σO] (the bilinear form of the einsum) the rewritten subscripts give the '
+                 'exact adjoint for every letter order, repeated letters, ellipsis placement, sizes and data; the only failure '
+                 'mode is ValueError and it occurs exactly when no such rewriting exists.  The string functions are compared '
+                 'with the implementation on all 2-operand strings over a 3-letter alphabet with ellipsis placements (seeded '
+                 'sample in quick, exhaustive in thorough); dense(op.T) = dense(op).T and op.mv = numpy.einsum are the oracles.'),
+        'note': ('Trusted: Lean kernel + Mathlib Finset sums + standard axioms; A1 (jnp.einsum = numpy.einsum, re-checked); the '
+                 'identification of jnp.einsum with the bilinear form Phi (an ellipsis is a block of further letters).'),
+        'technique': 'Lean 4 proof (assignment bijection under a letter swap) + differential correspondence of the string rewriting',
+        'design_ref': '§5 C14',
+    },
 }
 
 ALL = [f'C{i:02d}' for i in range(1, 21)]
